@@ -388,6 +388,30 @@ class Prop(object):
             r.outcomes['wrongpass:' + oc] += 1
             if oc != 'error':
                 r.viol('must-raise', dict(tags, grp='long-passphrase'), case, 'wrong passphrase (%s: agrees with the right one on its first 1016 octets) decrypted the message' % wname)
+        # passphrases are octet strings: a string that merely LOOKS the same (other Unicode normalisation form) is a wrong passphrase
+        for right, lookalikes in (('caf\u00e9 au lait', ['cafe\u0301 au lait']), ('cafe\u0301 au lait', ['caf\u00e9 au lait']),
+                                  ('\u212bngstr\u00f6m', ['\u00c5ngstr\u00f6m', 'A\u030angstro\u0308m']), ('\ud55c', ['\u1112\u1161\u11ab'])):
+            nm = pgpy.PGPMessage.new(BODIES['b17'], compression=CompressionAlgorithm.Uncompressed, format='b')
+            nblob = bytes(nm.encrypt(right, cipher=SymmetricKeyAlgorithm[case['cipher']], hash=HashAlgorithm.SHA256))
+            r.states += 1
+            r.transitions += 1
+            try:
+                ok = A.msg_view(pgpy.PGPMessage.from_blob(nblob).decrypt(right))['data'] == BODIES['b17']
+            except Exception:
+                ok = False
+            if not ok:
+                r.viol('base-fails', dict(tags, grp='unicode-passphrase'), case, 'message encrypted with passphrase %r does not decrypt with it' % (right,))
+            for w in lookalikes + [right.encode('utf-16-le')]:
+                r.states += 1
+                r.transitions += 1
+                try:
+                    pgpy.PGPMessage.from_blob(nblob).decrypt(w)
+                    oc = 'decrypted'
+                except Exception:
+                    oc = 'error'
+                r.outcomes['wrongpass:' + oc] += 1
+                if oc != 'error':
+                    r.viol('must-raise', dict(tags, grp='unicode-lookalike-passphrase'), case, 'passphrase %r decrypted a message encrypted with %r' % (w, right))
         kinds = ['rsa2048', 'cv25519', 'ecdh-p256', 'ecdh-p384', 'rsa1024']
         others = ['rsa2048-other', 'cv25519-other', 'rsa3072', 'ecdh-p521', 'ecdh-k256', 'rsa2048', 'cv25519']
         for rc in kinds:
